@@ -30,6 +30,10 @@ CHECKS = {
    technique="explicit enumeration of all valid export/import/close histories up to depth 4/5 for every process tensor of a 27-member alphabet, executed on real objects and HDF5 files, bitwise comparison with the original plus identical-consumer-results oracle",
    text="For hand-built rank-3/rank-4 process tensors (with/without dt and transforms, lengths 1,2,4, bond dimensions 4 and 9) and PT-TEMPO process tensors (diagonal, real and complex non-diagonal coupling), every valid history over {export, import as file, import as simple, close} is executed; after every import all metadata, every MPO tensor (raw and transformed), every cap tensor and the bond dimensions must equal the original's, and at the end compute_dynamics, compute_correlations, state_gradient and PtTebd must give identical results. File-backed PT-TEMPO vs in-memory is compared gauge-invariantly. Exhaustive within the alphabet and depth.",
    note="A rank-3 tensor and its delta expansion are treated as the same MPO tensor (the two classes differ in what get_mpo_tensor(transformed=False) returns). Files are written to /dev/shm or the default temp dir and removed."),
+ "C17": dict(category="fault_enumeration", design="4/C17",
+   technique="exhaustive crash-point enumeration: every prefix of the strace-recorded write/ftruncate sequence of the unmodified writer (hard death) and every file-operation index in two orderly death modes, each surviving file read back in a separate process; plus explicit-state enumeration of all file-mode histories to depth 3 against a reference model",
+   text="For export() of a 4-step process tensor and for a file-backed PT-TEMPO run, the writer child runs unmodified under strace; all 21 prefixes of its 20 file writes are materialised and imported as 'file' and 'simple' (the prefix model is validated against writers that really die with os._exit at every file operation: byte-identical files), and the writer is killed orderly (unhandled exception, sys.exit) after every file operation and before close(): every surviving file must raise, warn 'may be corrupt', or be complete and reproduce the reference dynamics; the cleanly closed file must open silently and complete. Mode machine: all 876 histories up to depth 3 over {create write/overwrite/temp, read, close, remove, export(overwrite F/T)} x {target missing, existing} against a model of who may replace or delete what.",
+   note="Process death only (writes reach the page cache in order); torn writes/power loss and HDF5 cache evictions of large files are not modelled. Needs ptrace (strace)."),
 }
 NOT_YET = "check not built yet in this round (see DESIGN.md sec. 8 build order)"
 
